@@ -163,6 +163,10 @@ func famSesWin(t *testing.T, r *Rec) {
 	add("candidate-attach-x-candidate-drop", "sesw hs polling 4 0 -", "sesw arm ws.candidate.attach", "sesw ws s0 4 0", "sesw drop 0",
 		"sesw release ws.candidate.attach", "sesw adv 400", "sesw poll s0", "sesw post s0 t 1 33", "sesw adv 400", "sesw poll s0", "sesw post s0 t 1 33",
 		"sesw adv 300", "sesw ws s0 4 0", "sesw frame 1 t 3270726f6265", "sesw frame 1 t 35", "sesw send s0 t 6869 0 0 -")
+	// a second candidate whose handshake was accepted while the first one was still probing reaches the candidate gate
+	// only after the first has completed the switch: it is closed, and its own probe and upgrade packets change nothing
+	add("late-candidate-x-completed-upgrade", "sesw hs polling 4 0 -", "sesw ws s0 4 0", "sesw frame 0 t 3270726f6265", "sesw arm ws.upgraded", "sesw ws s0 4 0",
+		"sesw adv 100", "sesw poll s0", "sesw frame 0 t 35", "sesw release ws.upgraded", "sesw frame 1 t 3270726f6265", "sesw frame 1 t 35", "sesw send s0 t 6869 0 0 -")
 	for _, sc := range scens {
 		detail, res := sesWinRun(t, sc.lines)
 		r.scenarios++
@@ -231,6 +235,22 @@ func famSesWin(t *testing.T, r *Rec) {
 		}
 		if want := fmt.Sprintf("%s:%d", ints(live), len(live)); end.reg != want {
 			r.Violate("C04", "C04/window/registry-differs/"+sc.name, fmt.Sprintf("registry %s but live sessions %s", end.reg, want), sc.lines)
+		}
+		if sc.name == "late-candidate-x-completed-upgrade" {
+			ups := 0
+			for _, out := range detail {
+				if out == "-" || out == "ok" {
+					continue
+				}
+				for _, e := range parseObs(out).events {
+					if e.who == "s0" && e.name == "upgrade" {
+						ups++
+					}
+				}
+			}
+			if ups != 1 {
+				r.Violate("C08", "C08/window/upgrade-events="+fmt.Sprint(ups), fmt.Sprintf("a candidate that reached the gate after another had completed the switch: %d upgrade events, want 1", ups), sc.lines)
+			}
 		}
 		if sc.name == "candidate-attach-x-candidate-drop" {
 			if st, ok := end.states[0]; !ok || st[0] != "open" || st[1] != "websocket" || st[2] != "01" {
